@@ -1,3 +1,4 @@
+import IceSpec.LineProto
 /-!
 # Spec monitor for C15 — "TCP mux routes connections by ufrag and cleans up after itself"
 
@@ -44,6 +45,7 @@ local IP (and, under concurrency, a newer connection under the same key). The mo
 that: on such a tree the **delivery** clause fires (notes/C15.md, F22 / O1).
 -/
 namespace IceSpec.C15
+open IceSpec.LineProto
 
 structure MFrame where
   fid : Nat
@@ -505,7 +507,12 @@ def observeT (m : Mon) (op : MOp) (l : Line) : Mon × Option String :=
       | .finish => finish m o
       | op => let b := book m op o; fin o b.1 b.2.1 b.2.2
 
-/-! ## reading the line protocol -/
+/-! ## reading and printing the line protocol
+
+An output line is a list of tokens joined by single spaces: the tokens of the result, then
+`; c=<closed> ; o=<replies> ; g=<census> ; L=<0|1> ; ret=<0|1>`.  `printObs` is the printer the driver
+uses for the model's observations; `IceProps.C15.C15_view_roundtrip` proves that `parseLine` reads every
+printed well-formed observation back. -/
 
 /-- a number in its canonical decimal form -/
 def canonNat (s : String) : Option Nat :=
@@ -513,17 +520,15 @@ def canonNat (s : String) : Option Nat :=
   | some n => if toString n == s then some n else none
   | none => none
 
-def parseNatList (s : String) : Option (List Nat) :=
-  if s = "" then some [] else (s.splitOn ",").mapM String.toNat?
+def parseNatList (s : String) : Option (List Nat) := parseNats ',' s
+
+def parseOut (e : String) : Option (Nat × String) :=
+  match splitC e ':' with
+  | [k, id] => k.toNat?.map (·, id)
+  | _ => none
 
 def parseOuts (s : String) : Option (List (Nat × String)) :=
-  if s = "" then some [] else
-  (s.splitOn ",").mapM (fun e => match e.splitOn ":" with
-    | [k, id] => k.toNat?.map (·, id)
-    | _ => none)
-
-def field (pre : String) (s : String) : Option String :=
-  if s.startsWith pre then some ((s.drop pre.length).toString) else none
+  if s = "" then some [] else (splitC s ',').mapM parseOut
 
 def parseH (s : String) : Option Nat :=
   match s.toList with
@@ -542,40 +547,75 @@ def kindUser (kind : String) : Option String :=
   | 'w' :: r => some (String.ofList r)
   | _ => none
 
-def parseRes (s : String) : ORes :=
-  if s = "ok" then .ok else
-  if s = "noop" then .noop else
-  if s = "empty" then .empty else
-  if s.startsWith "end ok" then .endOk else
-  if s.startsWith "n=" then .wrote (canonNat ((s.drop 2).toString)) else
-  match parseH s with
-  | some h => .handle h
-  | none =>
-    match s.splitOn " " with
-    | ["pkt", addr, id, len] =>
-      match addr.splitOn ":", len.toNat? with
-      | [ip, port], some len =>
-        match canonNat ip, canonNat port with
-        | some ip, some port => .pkt ip port id len
-        | _, _ => .pktBad
-      | _, _ => .pktBad
-    | _ => .other
+/-- `pkt <ip>:<port> <id> <len>` -/
+def parsePkt (addr id len : String) : ORes :=
+  match splitC addr ':', len.toNat? with
+  | [ip, port], some len =>
+    match canonNat ip, canonNat port with
+    | some ip, some port => .pkt ip port id len
+    | _, _ => .pktBad
+  | _, _ => .pktBad
 
-def parseObs (line : String) : Option Obs :=
-  match line.splitOn " ; " with
-  | [res, c, o, g, l, r] =>
-    match (field "c=" c).bind parseNatList, (field "o=" o).bind parseOuts,
-          (field "g=" g).bind (fun x => (x.splitOn "/").mapM String.toNat?), field "L=" l, field "ret=" r with
-    | some c, some o, some g, some l, some r =>
-      some { res := parseRes res, closed := c, outs := o, g := g, listenerClosed := l == "1", ret := r == "1" }
-    | _, _, _, _, _ => none
+/-- a result that is a single token -/
+def parseRes1 (t : String) : ORes :=
+  if t = "ok" then .ok else
+  if t = "noop" then .noop else
+  if t = "empty" then .empty else
+  match tagged "n=" t with
+  | some n => .wrote (canonNat n)
+  | none =>
+    match parseH t with
+    | some h => .handle h
+    | none => .other
+
+/-- the result tokens of an output line -/
+def parseRes (rt : List String) : ORes :=
+  if rt.take 2 = ["end", "ok"] then .endOk else
+  match rt with
+  | [t] => parseRes1 t
+  | [p, addr, id, len] => if p = "pkt" then parsePkt addr id len else .other
+  | _ => .other
+
+def parseFlag (pre s : String) : Option Bool := (tagged pre s).map (· == "1")
+
+/-- the tokens of an output line, LAST token first -/
+def parseObsRev (rev : List String) : Option Obs :=
+  match rev with
+  | r :: s5 :: l :: s4 :: g :: s3 :: o :: s2 :: c :: s1 :: res =>
+    if s1 = ";" ∧ s2 = ";" ∧ s3 = ";" ∧ s4 = ";" ∧ s5 = ";" then
+      match (tagged "c=" c).bind parseNatList, (tagged "o=" o).bind parseOuts,
+            (tagged "g=" g).bind (fun x => (splitC x '/').mapM String.toNat?),
+            parseFlag "L=" l, parseFlag "ret=" r with
+      | some c, some o, some g, some l, some r =>
+        some { res := parseRes res.reverse, closed := c, outs := o, g := g, listenerClosed := l, ret := r }
+      | _, _, _, _, _ => none
+    else none
   | _ => none
+
+def parseObs (line : String) : Option Obs := parseObsRev (splitC line ' ').reverse
 
 def parseLine (impl : String) : Line :=
   if impl = "bad-op" ∨ impl = "no-session" then .skip else
   match parseObs impl with
   | some o => .obs o
   | none => .garbled
+
+def printFlag (b : Bool) : String := if b then "1" else "0"
+
+def printOut (e : Nat × String) : String := joinC ':' [toString e.1, e.2]
+
+/-- the tokens after the result -/
+def obsToks (o : Obs) : List String :=
+  [";", "c=" ++ printNats ',' o.closed, ";", "o=" ++ joinC ',' (o.outs.map printOut), ";", "g=" ++ printNats '/' o.g,
+   ";", "L=" ++ printFlag o.listenerClosed, ";", "ret=" ++ printFlag o.ret]
+
+/-- the output line for the observation `o` whose result is printed as the tokens `rt` -/
+def printObs (rt : List String) (o : Obs) : String := joinC ' ' (rt ++ obsToks o)
+
+/-- well-formed: what `printObs` can print so that it is read back — a non-empty census (the empty list
+and the list `[""]` print alike) and payload ids without the separator characters -/
+def Obs.wf (o : Obs) : Bool :=
+  !o.g.isEmpty && o.outs.all (fun e => free ' ' e.2 && free ',' e.2 && free ':' e.2)
 
 /-- operation tokens (without the component name) -/
 def parseToks (toks : List String) : MOp :=
